@@ -31,14 +31,15 @@ TShrink0 == IsEv("Shrink") /\ Ev.n = 0 /\ Ev.r = "Ok" /\ ReleaseOk(Ev.id, Obs, E
 TShrinkOk == IsEv("Shrink") /\ Ev.n > 0 /\ Ev.r = "Ok" /\ ShrinkOk(Ev.id, Ev.n, Ev.rx, Ev.rw, Ev.len, Obs, Ev.st)
 TShrinkRefused == IsEv("Shrink") /\ Ev.n > 0 /\ Ev.r # "Ok" /\ ShrinkRefused(Ev.id, Ev.n, Ev.len, Obs, Ev.st)
 TQueryLive == IsEv("Query") /\ Ev.kind = "live" /\ Ev.r = "Ok" /\ QueryLiveOk(Ev.id, Ev.rx, Ev.rw, Ev.len, Obs, Ev.st)
-TQueryForeign == IsEv("Query") /\ Ev.kind # "live" /\ Ev.r # "Ok" /\ QueryForeignRefused(Obs, Ev.st)
+TQueryInterior == IsEv("Query") /\ Ev.kind = "interior" /\ Ev.r = "Ok" /\ QueryInteriorOk(Ev.id, Ev.n, Ev.rx, Ev.rw, Ev.len, Obs, Ev.st)
+TQueryForeign == IsEv("Query") /\ Ev.kind \notin {"live", "interior"} /\ Ev.r # "Ok" /\ QueryForeignRefused(Obs, Ev.st)
 TWrite == IsEv("Write") /\ Ev.r = "Ok" /\
             IF Ev.trunc < 0 THEN WriteOk(Ev.id, Ev.rx, Ev.rw, Ev.len, Obs, Ev.st)
             ELSE ShrinkOk(Ev.id, Ev.trunc, Ev.rx, Ev.rw, Ev.len, Obs, Ev.st)
 TResetAlloc == IsEv("ResetAlloc") /\ ResetOk(Ev.policy, Ev.init, Ev.st)
 
 TNext == TReset \/ TAllocOk \/ TAllocRefused \/ TRelease \/ TShrink0 \/ TShrinkOk \/ TShrinkRefused
-         \/ TQueryLive \/ TQueryForeign \/ TWrite \/ TResetAlloc
+         \/ TQueryLive \/ TQueryInterior \/ TQueryForeign \/ TWrite \/ TResetAlloc
 TSpec == TInit /\ [][TNext]_tvars
 
 Progress == NoteProgress(l)
